@@ -15,13 +15,14 @@ to obtain the enum spelling of an argument).
 Cell types of R7
     T  must return the reported status (when reported == current, "no change" is
        the same thing and is accepted too; an error never is)
-    S  must leave the status alone: ``None``, or the order error when asked to raise
+    S  must leave the status alone: ``None``, the current status itself, or the
+       order error when asked to raise
     N  must be ``None`` in both error modes (request ignored while one is pending)
     E  must be refused: order error when asked to raise, ``None`` otherwise
-    U  unsupported kind: order error when asked to raise; never a status
+    U  unsupported kind: order error when asked to raise, ``None`` otherwise
     X  unconstrained (only totality / closure / error-mode are checked)
 Everywhere: the call returns the reported status or ``None`` or raises FIXError,
-and FIXError only when asked to raise (supported kinds).
+and FIXError only when asked to raise (every kind, unsupported ones included).
 
 Plus ``can_cancel`` / ``can_replace`` / ``is_finished`` on every status.
 """
@@ -179,9 +180,18 @@ def cell(kind, cur, ex, rep):
             return "T", CL_T, "must_transit", "exec_report:" + SNAME[cur]
         return "X", "", "", ""
     if kind == "9":
+        # the lifecycle clauses are stated for every combination, hence for the
+        # cancel reject too (same priority as for kind 8); no pending_wins here:
+        # the reject is the answer to the pending request
+        if cur == Z and rep not in (A, REJ):
+            return "S", CL_JC, "created_accepts_only", "cancel_reject"
+        if cur in FINISHED:
+            return "S", CL_FIN, "finished_absorbing", "cancel_reject:finished_row"
         if rep == Z:
             return "S", CL_CRE, "back_to_created", "cancel_reject:" + (
                 "request_pending" if cur in PENDING_REQ else "no_request_pending")
+        if rep == A and cur in ACKNOWLEDGED:
+            return "S", CL_PN, "back_to_pending_new", "cancel_reject:" + ROW_CLASS[cur]
         if cur in T9_ROWS and rep in T9_COLS and ex == MARKER:
             return "T", CL_T, "must_transit", "cancel_reject:" + SNAME[cur]
         return "X", "", "", ""
@@ -191,6 +201,8 @@ def cell(kind, cur, ex, rep):
         if cur in REQUESTABLE:
             if natural:
                 return "T", CL_RQ_OK, "request_permitted", kn + ":" + SNAME[cur]
+            # odd arguments on a requestable row: unconstrained ("no REPORT moves
+            # an order back ..." - a request is not a report)
             return "X", "", "", ""
         if cur in PENDING_REQ:
             if natural:
@@ -301,7 +313,7 @@ def judge(kind, cur, ex, rep, raising, obs):
         return CL_TOTAL, "totality", f"{kn}:{obs[1]}", "reported status | None | FIXError"
     if tag == "other" or (tag == "status" and obs[1] != rep):
         return CL_CLOSED, "closure", f"{kn}:returned_something_else", "reported status | None | FIXError"
-    if tag == "fixerror" and not raising and supported:
+    if tag == "fixerror" and not raising:
         return CL_MODE, "error_mode", f"{kn}:raised_when_not_asked", "None"
     typ, clause, cid, cause = cell(kind if supported else "?", cur, ex, rep)
     if typ == "X":
@@ -311,6 +323,8 @@ def judge(kind, cur, ex, rep, raising, obs):
             return clause, cid, "returned_status", "FIXError"
         if raising and tag != "fixerror":
             return clause, cid, "no_error_when_asked_to_raise", "FIXError"
+        if not raising and tag != "none":
+            return clause, cid, "not_no_change_when_not_asked_to_raise", "None"
         return None
     if typ == "T":
         if tag == "status" or (tag == "none" and rep == cur):
@@ -319,6 +333,8 @@ def judge(kind, cur, ex, rep, raising, obs):
     if typ == "S":
         if tag == "none" or (tag == "fixerror" and raising):
             return None
+        if tag == "status" and rep == cur:
+            return None  # the current status itself: nothing moved
         return clause, cid, cause, "None (or FIXError when asked to raise)"
     if typ == "N":
         if tag == "none":
@@ -539,12 +555,14 @@ def run(ctx):
     ctx.assumptions += [
         "the domain is the FIX 4.4 OrdStatus / ExecType vocabulary plus the library's internal 'created' "
         "status (members are looked up by name in the library's enums; values come from the reference)",
-        "reading decision (DESIGN C16): lifecycle clauses are applied to execution reports (kind 8) and to "
-        "request kinds (F, G); for the cancel-reject kind (9) only closure, 'never back to created' and "
-        "'a pending request adopts the exchange's real status' are demanded",
+        "the lifecycle clauses (finished absorbing, never back to created / pending-new, created accepts only "
+        "pending-new or rejected) are applied to every supported kind, the cancel reject (9) included; an S cell "
+        "is satisfied by None, by the current status itself, or by the order error when asked to raise "
+        "(this supersedes the narrower reading of DESIGN C16 for kind 9; the existing test "
+        "test_state_transition__pendingreplce__ord_reject pins PENDING_REPLACE + 9 + PENDING_NEW -> PENDING_NEW)",
         "T cells of kind 8 are demanded only for the (ExecType, OrdStatus) pairs an exchange emits; "
         "the same reported status under another ExecType is unconstrained",
-        "unsupported kinds with raise_on_err=False: FIXError or None are both accepted",
+        "unsupported kinds: order error when asked to raise, None otherwise (as the statement says)",
     ]
     ctx.sample({"cell": ["NEW", "8", "TRADE", "FILLED"], "type": cell("8", NEW, "F", FILLED)[0]})
     ctx.sample({"cell": ["FILLED", "8", "TRADE", "PARTIALLY_FILLED"], "type": cell("8", FILLED, "F", PART)[0]})
